@@ -87,11 +87,11 @@ CHECKS = {
          "and that in strict mode OK implies exactly the declared length; the counting law is proved for stored folders and is an explicit hypothesis for MSZIP/Quantum/LZX. "
          "CHM and OAB have no theorem yet. Everything is validated by the written-vs-declared oracle on the implementation (well-formed, malformed, fixtures, short writes, salvage) and model agreement."
          " CHM: for every file content and section-0 member extract writes at most the declared length, OK means exactly the declared bytes of the file (C07Chm)."
-         " The counting law itself is now a theorem for MSZIP and LZX (C07Decoders: every source, fuel, state, request; written <= asked, OK => exactly asked), so CAB written <= declared holds for stored/MSZIP/LZX folders, CHM compressed members and OAB files and patches with no decoder hypothesis; Quantum's law is proved too (every method now), and strict-mode OK => exactly declared is unconditional for stored and MSZIP folders (joint decoder/feeder invariant); and, with the read-error law walked through LZX and Quantum too, for every compression type (C07_cab_ok_complete)."),
+         " The counting law itself is now a theorem for MSZIP and LZX (C07Decoders: every source, fuel, state, request; written <= asked, OK => exactly asked), so CAB written <= declared holds for stored/MSZIP/LZX folders, CHM compressed members and OAB files and patches with no decoder hypothesis; Quantum's law is proved too (every method now), and strict-mode OK => exactly declared is unconditional for stored and MSZIP folders (joint decoder/feeder invariant); and, with the read-error law walked through LZX and Quantum too, for every compression type (C07_cab_ok_complete), as an invariant over whole sessions (C07_cab_session_counts_fresh). CHM compressed members: OK => exactly the bytes asked for (C07ChmComplete). Salvage mode: OK => complete is false by design (kernel-checked example)."),
    note=PROOF_NOTE, technique="Lean 4 theorems (case analysis over cabd_extract's phases + induction for the stored decoder) + written/declared/status oracle on the implementation"),
  "C08": dict(category="proof",
    text=("CAB: theorems that whenever the cached decoder is not re-usable for a request (other folder, backward seek, dead decoder) extract behaves exactly like a fresh instance, and C08_stored_any_order - for a stored folder ANY list of extract() calls on members inside the folder's data (forward through the cached decoder, backward through a rebuilt one, repeated) returns OK with exactly each member's bytes, the fresh-instance result. "
-         "MSZIP: the chunking law is a theorem (C08Mszip: a then b = a+b, same bytes and final state, both directions; any split; a decoder-level model of the re-use rule serves any request list in any order), lifted to cabd's decoder call and through cabd_extract itself (C08MszipCab: any list of extract() calls on members of an MSZIP folder that decodes returns each member's slice of the one-shot result; single-cabinet folders unconditionally, multi-cabinet ones under a static fuel condition of the model); the LZX chunking law is not proved; Quantum's converse law is false for windows < 32 KiB (known finding D2); CHM: section-0 members are history-free from every consistent cache state (C08Chm). These are covered by the oracle: in random histories (repetition, interleaved archives, damaged folders, two cabinets with a damaged second one) over CAB sets and CHM files, "
+         "MSZIP: the chunking law is a theorem (C08Mszip: a then b = a+b, same bytes and final state, both directions; any split; a decoder-level model of the re-use rule serves any request list in any order), lifted to cabd's decoder call and through cabd_extract itself (C08MszipCab: any list of extract() calls on members of an MSZIP folder that decodes returns each member's slice of the one-shot result; single-cabinet folders unconditionally, multi-cabinet ones under a static fuel condition of the model); the LZX chunking law is not proved; Quantum's converse law is false for windows < 32 KiB (known finding D2); CHM: section-0 members are history-free in any session (C08Chm, C08ChmSession). MSZIP: after OK histories any further call equals the fresh one, failing or not (C08MszipFree). These are covered by the oracle: in random histories (repetition, interleaved archives, damaged folders, two cabinets with a damaged second one) over CAB sets and CHM files, "
          "every call is compared with the same member on a fresh decompressor; plus model/implementation agreement per call."),
    note=PROOF_NOTE, technique="Lean 4 theorems (cache decision of cabd_extract; invariant over call sequences for stored folders) + history-vs-fresh oracle + differential runs"),
  "C02": dict(category="proof",
@@ -101,7 +101,7 @@ CHECKS = {
          "formats, the shipped crashers and guard-directed constructions, with model/implementation agreement on statuses. Found and repaired on the way: c13e5b8, 004b113, a66a89b."
          " Also: make_decode_table's acceptance rule (model Huff.accepts) is compared with the three instantiations on the ten shapes their callers use, and the same code-length vectors are fed through MSZIP and KWAJ LZH streams; found and repaired: 797f74d (use-after-free after joining a multi-folder cabinet with a PREV_AND_NEXT entry)."
          " Memory safety is now a theorem on the decoder models: the out-of-bounds (null-dereference, shift-width, division, uninitialised-table) outcomes are unreachable for every input and every sequence of calls in the LZSS, KWAJ header, KWAJ LZH, MSZIP, LZX (under LenStable and stream position < 2^31) and Quantum decoders and in the CHM layer (readHeaders, fastFind: no fault at all; extract: only what the LZX decoder passes on)."
-         " CAB lift (C02CabLift): the feeder's own faults are only the two null dereferences of cabd_sys_read_block and none while it is live; Quantum/MSZIP folders have no oob/uninit/divZero/shiftWidth for every feeder state, stored folders no fault for any call sequence; the length announced to LZX is a read-closed invariant (LenStable over all feeder states is false, so the LZX lift is _partial: stated for the feeder with filtered announcements). LZX folders: LenStable discharged on reachable states by a relational walk (C02CabLift4: no oob/nullDeref/divZero/shiftWidth for the real feeder; position < 2^31 remains). MSZIP and Quantum folders: liveness threaded through the decoder (C02CabLift2, C02CabLift3) - no fault of any kind for any call sequence from a fresh folder state, no source hypothesis."),
+         " CAB lift (C02CabLift): the feeder's own faults are only the two null dereferences of cabd_sys_read_block and none while it is live; Quantum/MSZIP folders have no oob/uninit/divZero/shiftWidth for every feeder state, stored folders no fault for any call sequence; the length announced to LZX is a read-closed invariant (LenStable over all feeder states is false, so the LZX lift is _partial: stated for the feeder with filtered announcements). END TO END (C02CabExtract): for every files/params/member list, any session of extract() calls from a fresh decompressor never ends in oob/nullDeref/divZero/shiftWidth - no hypothesis left. LZX folders: LenStable discharged on reachable states by a relational walk (C02CabLift4: no oob/nullDeref/divZero/shiftWidth for the real feeder; position < 2^31 remains). MSZIP and Quantum folders: liveness threaded through the decoder (C02CabLift2, C02CabLift3) - no fault of any kind for any call sequence from a fresh folder state, no source hypothesis."),
    note=PROOF_NOTE + " Sanitizers see heap/stack/global object bounds, not sub-object overflows inside one allocation.",
    technique="Lean 4 theorems on the block reader/feeder model + sanitizer-instrumented differential fuzzing of malformed inputs"),
  "C01": dict(category="proof",
